@@ -18,7 +18,7 @@ def out_kind(line):
     return " ".join(w[:2]) if w[0] in ("read", "save", "load") and len(w) > 1 and w[1] in ("ok", "err", "skip", "unsupported") else w[0]
 
 GARBAGE = ["=abc", "=00000000000000000002x", "=-3", "=+5", "=007", "=9223372036854775808", "=1e3", "=$", "=5/1", "=0000000002/0", "=-1", "=99999"]
-LIMITS = [-1, 0, 1, 2, 3, 7, 100]
+LIMITS = [-1, 0, 1, 2, 3, 7, 100, 2147483647, 9223372036854775807]
 
 def pick_kind(rng, tier, kinds=None):
     k = rng.choice(kinds or ["mem", "sqlite", "sqlite", "ds", "ds"])
@@ -89,13 +89,21 @@ def gen_c10(rng, tier, n):
                 lines.append("save %s %s" % (rng.choice(["s1", "s2", "ünï"]), from_tok(rng, 2, napp.get(cur, 0))))
             elif x < 0.95:
                 lines.append("load %s" % rng.choice(["s1", "s2", "ünï", "none"]))
-            else:
+            elif x < 0.985:
                 cur = rng.randrange(3); lines.append("use %d" % cur)
+            else:
+                # close one of the OTHER instances; the next use of its number creates a new, empty store
+                other = rng.choice([k for k in range(3) if k != cur])
+                lines.append("drop %d" % other); napp[other] = 0
         # a full chain of reads with a fixed small limit from the oldest offset
         lim = rng.choice([1, 2, 3, 7])
         lines.append("read - %d" % lim)
         for _ in range(napp.get(cur, 0) // lim + 2):
             lines.append("read @next %d" % lim)
+        if rng.random() < 0.12:
+            # separately created stores, closed in creation order: A, B, close A, C – C starts empty and B keeps its events
+            lines += ["use 4", "append %d" % (rec + 1), "use 5", "append %d" % (rec + 2), "drop 4", "use 6", "read - 0", "append %d" % (rec + 3),
+                      "use 5", "read - 0", "use 6", "read - 0"]
         if rng.random() < 0.15:
             # concurrent appenders on a fresh instance (implementation-side judge: offsets strictly increasing in log order)
             lines.append("use 7")
@@ -129,6 +137,31 @@ def gen_c11(rng, tier, n):
         if rng.random() < 0.3:
             lines.append("append %d" % (nev + 1))
             lines.append("replay - 3 %d - - -" % rng.randint(0, 1))
+        if rng.random() < 0.3 and not (k.startswith("kind ds") and not k.endswith("chunk=0")):
+            # a bus that has published itself, then events appended behind its back, then a replay on THAT bus from the
+            # offset of its own last append: it must deliver what the others appended
+            lines += ["pub %d" % (500000 + nev), "read - 0", "append %d" % (nev + 2), "append %d" % (nev + 3), "busreplay @next", "busreplay -"]
+        if rng.random() < 0.25 and not k.startswith("kind ds"):
+            lines.append("nestedreplay")      # a second replay of the same store from inside the callback of the first
+        cases.append(lines)
+    return cases
+
+def gen_flaky(rng, tier, n):
+    """C13 over the real durable-streams store: the server stores an event but its acknowledgement is lost (502 from a
+    gateway): the publish still delivers, the failure is reported once, and the event is not sent a second time"""
+    cases = []
+    for _ in range(n):
+        lines = ["kind ds chunk=0"]
+        prec = 500000 + rng.randrange(1000)
+        for _ in range(rng.randint(2, 8)):
+            x = rng.random()
+            if x < 0.4:
+                lines.append("pubflaky %d" % prec); prec += 1
+            elif x < 0.8:
+                lines.append("pub %d" % prec); prec += 1
+            else:
+                lines.append("read - 0")
+        lines.append("read - 0")
         cases.append(lines)
     return cases
 
